@@ -231,6 +231,46 @@ func genC05(tier string, seed uint64, emit func(string)) {
 			emit(serveLine(appCfg, [][]byte{requestBytes([][]byte{[]byte(name[:len(name)-1]), gS(r)}, nil)}, genScript(r, 1, false), "", "unknown"))
 		}
 	}
+	// key/value lists (MSET, MSETNX, HMSET): the handler is called once per key, with the last value given for it
+	for i := 0; i < 4*per; i++ {
+		cmd := []string{"MSET", "MSETNX", "HMSET"}[i%3]
+		pool := []string{"a", "b", "", "k\r\n", "a"}
+		n := 1 + r.Intn(5)
+		argv := [][]byte{randCase(r, cmd)}
+		if cmd == "HMSET" {
+			argv = append(argv, []byte("h"))
+		}
+		last := map[string]string{}
+		var order []string
+		for j := 0; j < n; j++ {
+			k, v := pool[r.Intn(len(pool))], string(gS(r))
+			if j > 0 && r.Chance(1, 3) {
+				k = order[r.Intn(len(order))]
+			}
+			if _, ok := last[k]; !ok {
+				order = append(order, k)
+			}
+			last[k] = v
+			argv = append(argv, []byte(k), []byte(v))
+		}
+		var want, script []string
+		for _, k := range order {
+			switch cmd {
+			case "MSET":
+				want = append(want, fmt.Sprintf("set(%s,%s,0000,-)@0,1", hx([]byte(k)), hx([]byte(last[k]))))
+			case "MSETNX":
+				want = append(want, fmt.Sprintf("get(%s)@0,1", hx([]byte(k))), fmt.Sprintf("set(%s,%s,1000,-)@0,1", hx([]byte(k)), hx([]byte(last[k]))))
+				script = append(script, "r n")
+			case "HMSET":
+				want = append(want, fmt.Sprintf("hset(68,%s,%s,0)@0,1", hx([]byte(k)), hx([]byte(last[k]))))
+			}
+		}
+		for range order {
+			script = append(script, map[string]string{"MSET": "r s:4f4b", "MSETNX": "r i:31", "HMSET": "r i:31"}[cmd])
+		}
+		sort.Strings(want)
+		emit(serveLine("-", [][]byte{requestBytes(argv, nil)}, strings.Join(script, " ; "), "", "kv "+strings.Join(want, ";")))
+	}
 	// unknown commands: error reply, no handler call
 	for i := 0; i < per; i++ {
 		// (incl. names whose Unicode upper case would spell a command: U+017F long s, U+0131 dotless i, U+212A Kelvin)
@@ -254,6 +294,18 @@ func oracleC05(c *serveCase, extra []string, res *serveResult) (string, []string
 			return "fail:unknown command invoked the handler", tags
 		case !ok || len(frames) != 1 || frames[0].Kind != 'e':
 			return "fail:unknown command was not answered with one error reply", tags
+		}
+		return "ok", tags
+	}
+	if len(extra) >= 2 && extra[0] == "kv" {
+		tags = append(tags, "kv-list")
+		got := append([]string{}, calls...)
+		sort.Strings(got)
+		if strings.Join(got, ";") != extra[1] {
+			return "fail:a key/value list reached the handler as " + trunc(strings.Join(calls, " "), 160) + " expected (in any order) " + trunc(extra[1], 160), tags
+		}
+		if !ok || len(frames) != 1 || frames[0].Kind == 'e' {
+			return "fail:a well-formed key/value command was not answered with one non-error reply", tags
 		}
 		return "ok", tags
 	}
@@ -741,6 +793,51 @@ func composedShapeCases(cfg string, wild bool) []string {
 	return out
 }
 
+// allocWindow: counts that are too large to allocate but small enough for make to try (a preallocation that trusts a
+// client's number ends in "fatal error: out of memory", which no recover can contain), and the 32-bit borders.
+var allocWindow = []string{"2147483647", "2147483648", "4294967296", "100000000000", "1099511627776", "4000000000000", "10000000000000", "8796093022209", "17592186044416", "17592186044417"}
+
+// extremeStoreCases: the bundled example store behind the framework: a small data set, then one command with extreme
+// numbers in every count / index / offset / limit / increment position (and empty values), then a PING.
+func extremeStoreCases() []string {
+	setup := [][][]byte{bs("RPUSH", "l", "a", "b", "c"), bs("SADD", "s", "a", "b"), bs("ZADD", "z", "1", "a", "2", "b", "2", "c", "3", "d"), bs("SET", "k", "hello"), bs("SET", "n", "10"), bs("HSET", "h", "f", "v")}
+	var out []string
+	one := func(argv ...string) {
+		prog := append(append([][][]byte{}, setup...), bs(argv...), bs("PING"), bs("LRANGE", "l", "0", "-1"), bs("ZRANGE", "z", "0", "-1"))
+		out = append(out, xserveLine(prog))
+	}
+	nums := append(append([]string{}, borderInts...), allocWindow...)
+	for _, a := range nums {
+		one("LPOP", "l", a)
+		one("RPOP", "l", a)
+		one("LINDEX", "l", a)
+		one("INCRBY", "n", a)
+		one("DECRBY", "n", a)
+		one("INCRBY", "fresh", a)
+		for _, b := range nums {
+			small := func(x string) bool { return len(x) <= 2 }
+			if !(small(a) || small(b)) && !(len(a) >= 18 && len(b) >= 18) {
+				continue
+			}
+			one("LRANGE", "l", a, b)
+			one("ZRANGE", "z", a, b)
+			one("ZRANGE", "z", a, b, "REV", "WITHSCORES")
+			one("ZREVRANGE", "z", a, b)
+			one("ZRANGEBYSCORE", "z", "-inf", "+inf", "LIMIT", a, b)
+			one("ZREVRANGEBYSCORE", "z", "+inf", "-inf", "WITHSCORES", "LIMIT", a, b)
+			one("ZRANGE", "z", "1", "3", "BYSCORE", "LIMIT", a, b)
+			one("GETRANGE", "k", a, b)
+		}
+	}
+	for _, argv := range [][]string{{"SET", "", ""}, {"GET", ""}, {"APPEND", "", ""}, {"GETRANGE", "", "0", "0"}, {"RPUSH", "", ""}, {"LPOP", ""}, {"SADD", "", ""}, {"SREM", "s", ""},
+		{"HSET", "", "", ""}, {"HGET", "h", ""}, {"HDEL", "h", ""}, {"ZADD", "", "0", ""}, {"ZREM", "z", ""}, {"ZSCORE", "z", ""}, {"RENAME", "k", ""}, {"DEL", ""}, {"MSET", "", ""}, {"MGET", "", ""},
+		{"ZRANGEBYSCORE", "z", "+inf", "-inf"}, {"ZRANGEBYSCORE", "z", "(2", "(2"}, {"ZREVRANGEBYSCORE", "z", "-inf", "+inf"}, {"LRANGE", "l", "2", "0"}, {"ZRANGE", "z", "3", "1"}, {"ZREVRANGE", "z", "-1", "-3"},
+		{"GETRANGE", "k", "4", "1"}, {"LPOP", "l", "0"}, {"LPOP", "l", "-1"}, {"RPOP", "l", "-9223372036854775808"}, {"ZRANGEBYSCORE", "z", "1", "3", "LIMIT", "0", "0"}, {"ZRANGEBYSCORE", "z", "1", "3", "LIMIT", "-1", "-1"}} {
+		one(argv...)
+	}
+	return out
+}
+
 func oracleC04(c *serveCase, extra []string, res *serveResult) (string, []string) {
 	tags := []string{"nt"}
 	if res.hung {
@@ -787,6 +884,10 @@ func genC07(tier string, seed uint64, emit func(string)) {
 		emit(fmt.Sprintf("cfgstorm %d %d %d", 2+r.Intn(4), 2+r.Intn(6), 700))
 	}
 	for _, l := range composedShapeCases("-", true) {
+		emit(l)
+	}
+	// the bundled example store as the handler, with extreme numbers, inverted ranges and empty values
+	for _, l := range extremeStoreCases() {
 		emit(l)
 	}
 	// clients that stop reading their replies must not disturb a witness connection
